@@ -85,7 +85,8 @@ fire("tostr-concat-prec", ["C03", "C17"], "precedence", E("src/lib.rs", "       
 fire("pgroup-no-count", ["C16", "C19"], "curr_group", E("src/parse.rs", "            self.curr_group += 1; // this is a capture group\n            if let Some((id, skip)) = parse_id(&self.re[ix + 2..], \"<\", \">\", false) {", "            if let Some((id, skip)) = parse_id(&self.re[ix + 2..], \"<\", \">\", false) {"))
 fire("flags-no-restore", ["C19"], "restored", E("src/parse.rs", "                    self.flags = oldflags;\n                    return Ok((ix + 1, child));", "                    return Ok((ix + 1, child));"))
 fire("backref-no-insert", ["C01", "C19"], "registering", E("src/parse.rs", "                self.numeric_backrefs = true;\n                self.backrefs.insert(group);", "                self.numeric_backrefs = true;"))
-fire("cond-true-last", ["C15"], "true branch", E("src/parse.rs", "            if_true = alternatives.remove(0);", "            if_true = alternatives.pop().unwrap();"))
+fire("cond-alt-destructuring", ["C15"], "destructuring", E("src/parse.rs", "        if end == next {\n            // Backreference validity checker", "        let (if_true, if_false) = match if_true {\n            Expr::Alt(mut v) if if_false == Expr::Empty => {\n                let first = v.remove(0);\n                (first, Expr::Alt(v))\n            }\n            other => (other, if_false),\n        };\n        if end == next {\n            // Backreference validity checker"))
+fire("cond-false-skips-bar", ["C15"], "false branch", E("src/parse.rs", "let (false_end, false_branch) = self.parse_re(end + 1, depth)?;", "let (false_end, false_branch) = self.parse_branch(end + 1, depth)?;"))
 fire("escape-z", ["C19"], "EndText", E("src/parse.rs", "            (end, Expr::Assertion(Assertion::EndText))\n        } else if b == b'Z'", "            (end, Expr::Assertion(Assertion::EndLine { crlf: false }))\n        } else if b == b'Z'"))
 fire("k-quote-relative", ["C19"], "allow_relative", E("src/parse.rs", ".parse_named_backref(end, \"'\", \"'\", true, &|group| Expr::Backref(group));", ".parse_named_backref(end, \"'\", \"'\", false, &|group| Expr::Backref(group));"))
 fire("comment-step", ["C06"], "STEP", E("src/parse.rs", "if ix + 1 < self.re.len() => ix += 2,", "=> ix += 2,"))
@@ -145,6 +146,6 @@ rx("ref-rename-analyze-locals", ["C01","C02","C03","C07","C13","C15","C16"], ("s
 rx("ref-rename-parse-group-locals", ["C16","C19","C06","C15"], ("src/parse.rs", r"\bla\b", "look", 3))
 rx("ref-rename-expand-locals", ["C12"], ("src/expand.rs", r"\btail\b", "rest", 5), ("src/expand.rs", r"\bon_group_num\b", "check_num", 3))
 rx("ref-rename-state-locals", ["C20","C02","C05","C07"], ("src/vm.rs", r"\boldsave_ix\b", "keep", 5), ("src/vm.rs", r"\boldsave_start\b", "first", 3), ("src/vm.rs", r"\boldsave_end\b", "last", 4))
-rx("ref-rename-cond-locals", ["C15","C19"], ("src/parse.rs", r"\bif_true\b", "yes", 3), ("src/parse.rs", r"\bif_false\b", "no", 3), ("src/parse.rs", r"\binner_condition\b", "cond_expr", 2))
+rx("ref-rename-cond-locals", ["C15","C19"], ("src/parse.rs", r"\bif_true\b", "yes", 2), ("src/parse.rs", r"\bif_false\b", "no", 3), ("src/parse.rs", r"\binner_condition\b", "cond_expr", 2))
 json.dump({"variants": V}, open(os.path.join(os.path.dirname(os.path.abspath(__file__)), "variants.json"), "w"), indent=1)
 print(len(V), "variants;", sum(1 for v in V if "must_fire" in v), "must fire,", sum(1 for v in V if "must_stay_silent" in v), "must stay silent")
